@@ -120,6 +120,31 @@ theorem write_fault_recipients (F : Nat → Bool) (s : State) (src : Nat) (x : C
 theorem registry_survives_write_faults (cfg : Cfg) (es : List (Store × List Nat × Event)) : Reg (runF cfg es) :=
   reg_runF cfg es
 
+
+/-- C10's frame property UNDER WRITE FAULTS, for the whole event (every frame of the chunk, a verdict's parked frames, …),
+    in EVERY state, for EVERY fault set: a connection `d` that the event is not about and whose OWN transport takes
+    writes keeps every field of its record, except that OP_PUBLISH frames may have been appended while it is open and
+    that it may have been forgotten if it was already closing — word for word `untouched_by_others`.  So a broken
+    transport of one subscriber cannot make the broker disconnect, crash, pause or otherwise disturb anybody else. -/
+theorem untouched_by_others_under_faults (F : Nat → Bool) (cfg : Cfg) (s : State) (e : Event) (d : Nat) (y : Conn)
+    (hd : e.target ≠ some d) (hF : F d = false) (hy : s.conn d = some y) :
+    ∃ y' extra, (stepF F cfg s e).conn d = some y' ∧
+      y' = { y with out := y.out ++ extra, active := y'.active, registered := y'.registered,
+                    lostAs := y'.lostAs } ∧
+      (∀ en ∈ extra, IsPubWrite en) ∧ (y.closing = true → extra = []) ∧
+      (∀ ch ∈ y'.active, ch ∈ y.active) ∧
+      ((y'.registered = y.registered ∧ y'.active = y.active) ∨ (y.closing = true ∧ y'.registered = false)) := by
+  obtain ⟨y', hy', extra, r, hp, hc⟩ := others_stepF F cfg s e d y hd hF hy
+  exact ⟨y', extra, hy', r.eq, hp, hc, r.active, r.reg⟩
+
+/-- … in particular it is not closed by the broker, whatever fails elsewhere -/
+theorem closing_is_own_under_faults (F : Nat → Bool) (cfg : Cfg) (s : State) (e : Event) (d : Nat) (y : Conn)
+    (hd : e.target ≠ some d) (hF : F d = false) (hy : s.conn d = some y) :
+    ∃ y', (stepF F cfg s e).conn d = some y' ∧ y'.closing = y.closing ∧ y'.gone = y.gone ∧
+      y'.paused = y.paused ∧ y'.ak = y.ak := by
+  obtain ⟨y', hy', extra, r, _, _⟩ := others_stepF F cfg s e d y hd hF hy
+  refine ⟨y', hy', ?_, ?_, ?_, ?_⟩ <;> rw [r.eq]
+
 /-! non-vacuity (kernel-evaluated): the C01 example history (connections 1 and 2 subscribed to "c", 1 publishes),
     with connection 2's transport refusing the write: 2 is closed and written nothing, the publisher still gets its
     own copy, and the accepted entry records recipient [1] of the entitled [1, 2]. -/
